@@ -1,4 +1,5 @@
 import Driver.SettingsD
+import Driver.CacheD
 /-! Line-protocol driver: one JSON object per stdin line, one per stdout line. -/
 open Lean Driver
 
@@ -7,6 +8,7 @@ def dispatch (j : Json) : R Json := do
   match op with
   | "settings.run" => settingsRun j
   | "transport.run" => transportRun j
+  | "cache.run" => cacheRun j
   | _ => throw s!"unknown op {op}"
 
 def handleLine (line : String) : String :=
